@@ -102,7 +102,7 @@ func consume(r xml.TokenReader, want int) (toks []string, errs []string) {
 			errs = append(errs, "nil token, nil error")
 			break
 		}
-		if i > 1000 {
+		if i > 100000 {
 			errs = append(errs, "reader does not end")
 			break
 		}
@@ -190,10 +190,49 @@ func stanzaNSBody(kind string, maxChildren int) nd.Body {
 	inner := stanzaBody(kind, maxChildren)
 	nBody := xml.Name{Space: ns, Local: "body"}
 	return func(c *nd.Ctx) nd.Result {
+		defer func(p []xml.Name, d []string, n []xml.Name) { payloadPats, childDocs, childNames = p, d, n }(payloadPats, childDocs, childNames)
 		payloadPats = []xml.Name{nBody, {Local: "body"}, {Space: ns}, {}}
 		childDocs = []string{`<body>hi</body>`, `<show>away</show>`, `<a xmlns="n1">x<i/></a>`, `<body xmlns="n1"/>`, `text`, wsDoc}
 		childNames = []xml.Name{nBody, {Space: ns, Local: "show"}, nA, {Space: "n1", Local: "body"}, {}, {}}
 		return inner(c)
+	}
+}
+
+// largeBody is stanzaBody over stanzas whose first kind of child is large: it
+// holds so many elements that the stanza is longer than any fixed-size token
+// buffer a router might keep (sizes around powers of two up to 5000 tokens).
+// Handlers for later children must still be invoked and see the whole stanza,
+// whatever the earlier handlers consumed.
+// textFrom: the children from this index on are text, not elements.
+var textFrom = 4
+
+// nestedChildren: the children of the stanza a re-entering handler feeds through the mux.
+var nestedChildren = []int{1, 0, 3}
+
+var largeSizes = []int{255, 511, 512, 513, 1025, 2500}
+
+func largeBody(kind string) nd.Body {
+	inner := stanzaBody(kind, 2)
+	return func(c *nd.Ctx) nd.Result {
+		defer func(p []xml.Name, d []string, n []xml.Name) { payloadPats, childDocs, childNames = p, d, n }(payloadPats, childDocs, childNames)
+		n := largeSizes[c.Choose(len(largeSizes), "elements-inside-the-large-child")]
+		big := `<a xmlns="n1">` + strings.Repeat("<i/>", n) + `</a>` // 2n+2 tokens
+		payloadPats = []xml.Name{nA, nB}
+		childDocs = []string{big, `<b xmlns="n1"/>`, `text`}
+		childNames = []xml.Name{nA, nB, {}}
+		textFrom, nestedChildren = 2, []int{1, 2, 1}
+		defer func() { textFrom, nestedChildren = 4, []int{1, 0, 3} }()
+		res := inner(c)
+		if res.NonTrivial != "" {
+			res.NonTrivial = fmt.Sprintf("%d|%v", n, c.Vector())
+		}
+		if res.Violation != nil {
+			res.Violation.Sig = "large:" + res.Violation.Sig
+			if len(res.Violation.Msg) > 1500 {
+				res.Violation.Msg = fmt.Sprintf("(large child with %d elements) ", n) + res.Violation.Msg[:700] + " … " + res.Violation.Msg[len(res.Violation.Msg)-700:]
+			}
+		}
+		return res
 	}
 }
 
@@ -241,7 +280,7 @@ func stanzaBody(kind string, maxChildren int) nd.Body {
 			}
 			reentered = true
 			depth++
-			_, nestedPanic = run(mref, stanzaDoc(kind, typ, []int{1, 0, 3}, ""), &recEnc{}, false)
+			_, nestedPanic = run(mref, stanzaDoc(kind, typ, nestedChildren, ""), &recEnc{}, false)
 			depth--
 		}
 		var opts []mux.Option
@@ -392,7 +431,7 @@ func stanzaBody(kind string, maxChildren int) nd.Body {
 		var want []string
 		elems := 0
 		for _, ch := range children {
-			if ch >= 4 {
+			if ch >= textFrom {
 				continue
 			}
 			elems++
@@ -629,6 +668,8 @@ func init() {
 				{Name: "iq", Body: stanzaBody("iq", k), CutDepth: 6, Budget: b},
 				{Name: "message-ns", Desc: "children that inherit the stanza namespace (body, show) against exact, local-name, namespace and type-only patterns", Body: stanzaNSBody("message", k), CutDepth: 6, Budget: b},
 				{Name: "presence-ns", Desc: "the same for presences", Body: stanzaNSBody("presence", k), CutDepth: 6, Budget: b},
+				{Name: "message-large", Desc: "a child with 255..2500 elements (510..5000 tokens) before / after a small one, two payload handlers, every read program", Body: largeBody("message"), CutDepth: 4, Budget: b},
+				{Name: "presence-large", Desc: "the same for presences", Body: largeBody("presence"), CutDepth: 4, Budget: b},
 				{Name: "top-level", Body: topBody, CutDepth: 4, Budget: b},
 				{Name: "registration", Body: regBody, Workers: 1, Budget: b},
 			}
